@@ -22,6 +22,8 @@ from .. import probe, real
 from ..gen import trees as GT
 from ..monitor import failpoints as FP
 from ..monitor import shadowstore
+
+_KEEP = []  # suspended generators / coroutines that stay alive until the process ends
 from . import c04 as C04
 
 LEVEL = "fault_enumeration"
@@ -301,6 +303,34 @@ def catalogue(sh):
         del it
 
     ops["newstyle_generator_abandoned"] = newstyle_generator
+
+    def generator_left_suspended():
+        # started, advanced once and KEPT: it is still suspended while everything that follows runs
+        @jaxtyped(typechecker=typeguard.typechecked)
+        def g(x: sh.img, y: sh.vec):
+            yield x
+            yield y
+
+        it = g(A(3, 4, 5), A(7))
+        next(it)
+        _KEEP.append(it)
+
+    ops["generator_left_suspended"] = generator_left_suspended
+
+    def coroutine_left_suspended():
+        # a decorated coroutine function: its coroutine is driven to its first suspension point and kept (what an
+        # event loop does with a task that awaits something slow) while everything that follows runs
+        class Suspend:
+            def __await__(self):
+                yield "suspended"
+
+        ns = {"jaxtyped": jaxtyped, "tc": typeguard.typechecked, "T_img": sh.img, "T_vec": sh.vec, "Suspend": Suspend}
+        real.exec_src("@jaxtyped(typechecker=tc)\nasync def co(x: T_img, y: T_vec):\n    await Suspend()\n    return 0\n", ns)
+        c = ns["co"](A(3, 4, 5), A(7))
+        c.send(None)
+        _KEEP.append(c)
+
+    ops["coroutine_left_suspended"] = coroutine_left_suspended
 
     def decorate_dataclass():
         import dataclasses
